@@ -68,7 +68,12 @@ func (p c12) Gen(c *run.Ctx, idx int) (json.RawMessage, error) {
 	}
 	spec := cu.spec
 	spec.Data.FixedLen = c12Sizes[idx%len(c12Sizes)]
-	return mustJSON(opCase{U: spec, Op: *op, UIdx: uidx}), nil
+	cs := opCase{U: spec, Op: *op, UIdx: uidx}
+	if (idx/len(c12Sizes))%3 == 1 {
+		// a small configured maximum: levels with exactly the maximum, multiples of it and a rest
+		cs.Cfg.MaxBatch = []int{2, 4, 7}[(idx/len(c12Sizes)/3)%3]
+	}
+	return mustJSON(cs), nil
 }
 
 const c12MaxObjects = 40000
@@ -164,6 +169,11 @@ func (p c12) Exec(c *run.Ctx, idx int, raw json.RawMessage) []run.Result {
 	res.Counters[fmt.Sprintf("max_list_len_%d", sp.U.Data.FixedLen)] = 1
 	res.Tags = sortedKeys(tags)
 
+	maxBatch := c12DefaultMaxBatch
+	if sp.Cfg.MaxBatch > 0 {
+		maxBatch = sp.Cfg.MaxBatch
+		tags[fmt.Sprintf("max-batch=%d", maxBatch)] = true
+	}
 	mark := r.Log.Len()
 	hr := r.Query(&sp.Op)
 	evs := r.Log.Since(mark)
@@ -180,7 +190,7 @@ func (p c12) Exec(c *run.Ctx, idx int, raw json.RawMessage) []run.Result {
 			callsPerSvc[e.Service] = map[int64]bool{}
 		}
 		callsPerSvc[e.Service][e.CallID] = true
-		if e.BatchSize >= c12DefaultMaxBatch {
+		if e.BatchSize >= maxBatch {
 			fullCalls[e.CallID] = true
 		}
 		if len(e.Variables) == 1 {
